@@ -57,6 +57,37 @@ def _drive_attacks(args):
                 break
         if tid > 4000:
             break
+    # bit 1 (secondary bitmap present) cleared although elements above 64 are flagged: whatever the decision, the
+    # elements above 64 must not be skipped - the same message WITHOUT their bytes must be refused
+    hi = [b for b in bits if int(b) > 64 and bc[b].get('field_processor') is None
+          and (bc[b].get('field_python_type') or 'string') == 'string']
+    lo = [b for b in bits if int(b) <= 64 and bc[b].get('field_processor') is None
+          and (bc[b].get('field_python_type') or 'string') == 'string']
+    alpha = isoc.alphabet(codec)
+    for i, hb in enumerate(hi[:12]):
+        r = drv.rng(seed, 'bit1', hb)
+        m = {'MTI': '1240', 'DE' + hb: isoc.value_for(r, bc[hb], alpha)}
+        m2 = {'MTI': '1240'}
+        for b in r.sample(lo, min(2, len(lo))):
+            m['DE' + b] = m2['DE' + b] = isoc.value_for(r, bc[b], alpha)
+        for hexb in (False, True):
+            _, full = isoc.do_dumps(m, codec, bc, hexb)
+            _, low = isoc.do_dumps(m2, codec, bc, hexb)
+            if full is None or low is None:
+                continue
+            hl = 36 if hexb else 20
+
+            def clear_bit1(x):
+                if hexb:
+                    return x[:4] + ('%x' % (int(chr(x[4]), 16) & 7)).encode('ascii') + x[5:]
+                return x[:4] + bytes([x[4] & 0x7f]) + x[5:]
+            for desc, data in (('bit 1 cleared, all element bytes present', clear_bit1(full)),
+                               ('bit 1 cleared, bytes of the elements above 64 missing', clear_bit1(full[:hl]) + low[hl:]),
+                               ('bytes of the elements above 64 missing', full[:hl] + low[hl:])):
+                e, d = isoc.do_loads(data, codec, bc, hexb)
+                traces.append({'tid': tid, 'hex': hexb, 'events': [e], '_desc': 'DE%s flagged: %s' % (hb, desc), '_m': repr(m)[:200],
+                               '_d': repr(d)[:300] if d is not None else None})
+                tid += 1
     return traces
 
 
